@@ -17,9 +17,10 @@ GENSIG = (" Further tie (regenerated on every run): translate/sig2coq.py transla
           "parsers) and signatures/mtu.py from /repo's CURRENT source; coq/Gen/GenSigP.v proves them equal to the model, GenSigC.v restates the range / round-trip theorems "
           "for the translated code.")
 GENFILE = (" Further tie (regenerated on every run): translate/file2coq.py translates the line loop of _parse_file, _parse_section, the label classes, the record "
-           "classes' label / signature dispatch and RecordsDatabase.create / add from /repo's CURRENT source; coq/Gen/GenFileP.v proves that the translated loop body simulates "
+           "classes' label / signature dispatch, RecordsDatabase.create / add / iter_values / get_random / __len__ / _replace and Database.load from /repo's CURRENT source; coq/Gen/GenFileP.v proves that the translated loop body simulates "
            "the model's step from every reachable state, GenFileC.v that the translated parser of a file TEXT equals the model's for every text and restates the file-level "
-           "theorems for it (HTTPSignature.parse is bound to the model's, named in the trusted base).")
+           "theorems for it; GenDbP.v / GenDbC.v: the translated get_random is the model's lookup for every pick, the translated load refines the atomic load specification "
+           "(HTTPSignature.parse is bound to the model's here and proved equal to its own translation by the http2coq tie).")
 GENHTTPX = (" Further tie (regenerated on every run): translate/http2coq.py translates read.py (first line, header lines with continuations, read_payload), header.py / http.py "
             "(lower_name, _get_header_value, software, from_buffer) and signatures/http.py (HTTPSignature.parse, _parse_headers, header_names) from /repo's CURRENT source; "
             "coq/Gen/GenHttpP.v proves them equal to the model for all payloads / signature texts (the two regexes and h11's line extraction are assumed primitives, read literally), "
@@ -115,7 +116,7 @@ CLAIMED = {
              tech="Coq proof (printer/parser round trips) + differential correspondence, quirk sweep (thorough: all 2^17)", ref="DESIGN.md section 4 C18"),
  "C11": dict(text="Coq theorems: the line-by-line load (local database, commit after the last line) refines the atomic specification "
                   "load_spec; at EVERY line-read point the visible version is the one installed before the load, only the observation after the last line "
-                  "shows the new one; failed load preserves, no accumulation, idempotence, never-loaded = no section. " + TIE + " A wrapped file iterator "
+                  "shows the new one; failed load preserves, no accumulation, idempotence, never-loaded = no section. " + TIE + GENFILE + " A wrapped file iterator "
                   "snapshots the whole shared database at every line read of every load in histories of good/bad/unreadable files (fault at every line).",
              note="Trusted: as C09; observation granularity = line-read point (as the property states); unreadable paths are checked on the "
                   "implementation only. No axioms.",
